@@ -785,6 +785,13 @@ class DataOps:
             j = o['a'][4] % len(bins)
             bins[j] = np.append(bins[j], float(max(tv)) + 1000.0 + j)
             self.ctx.probe('bin_lists_absent_time_point')
+        if o['a'][3] % 8 == 1:
+            # a bin none of whose time points was recorded (bins of the full recording applied to a cropped one): it has no
+            # data -- NaN --, it is not filled from some other time point
+            groups = groups + [[]]
+            bins = bins + [np.array([float(max(tv)) + 2000.0, float(max(tv)) + 2001.0])]
+            present = present + [np.array([])]          # (its label is the mean of its recorded time points: none, NaN)
+            self.ctx.probe('bin_without_recorded_time_points')
         if len({len(b) for b in bins}) == 1 and o['a'][2] % 2:
             bins = np.array(bins)          # equal-sized bins as one 2-D array
         extra = [k for k in src.obj.time_descriptors if k != 'time']
@@ -802,6 +809,8 @@ class DataOps:
         s = self.pool.add(res, 'tdataset', sem, 'bin_time', [src.sid])
         s.parent_dtype = np.zeros(0, dtype=src.obj.measurements.dtype)     # means of float32 data carry float32 rounding
         self._check_binned(s, present)
+        if any(len(b) == 0 for b in present):
+            s.alive = False          # (a dataset with an undefined time label is not taken further: later selections by time have no meaning on it)
         self.pool.sweep('bin_time', args=[src.sid], produced=[s.sid])
         guard()
         self.ctx.behaviour('bin_time', len(groups), o['flag'], o['flag2'])
@@ -816,12 +825,17 @@ class DataOps:
         if m.shape != (len(rows), len(cols), len(bins)):
             return self._fail(slot, 'C11', 'bin_time', 'shape', f'binned shape {m.shape}, expected {(len(rows), len(cols), len(bins))}')
         got_t = np.asarray(obj.time_descriptors['time'], dtype=float)
-        exp_t = np.array([float(np.mean(b)) for b in bins])
-        if got_t.shape != exp_t.shape or not np.allclose(got_t, exp_t, rtol=1e-12, atol=1e-12):
+        exp_t = np.array([float(np.mean(b)) if len(b) else float('nan') for b in bins])
+        if got_t.shape != exp_t.shape or not np.allclose(got_t, exp_t, rtol=1e-12, atol=1e-12, equal_nan=True):
             return self._fail(slot, 'C11', 'bin_time', 'bin', f'binned time labels {got_t.tolist()} != bin means {exp_t.tolist()}')
         for i, (o_, _) in enumerate(rows):
             for j, (c, _) in enumerate(cols):
                 for k, mem in enumerate(sem['bins']):
+                    if not mem:
+                        if not np.isnan(m[i, j, k]):
+                            return self._fail(slot, 'C11', 'bin_time', 'bin',
+                                              f'bin {k} lists no recorded time point, yet cell obs {o_} channel {c} holds {m[i, j, k]!r} (no data: NaN)')
+                        continue
                     exp = float(np.mean([self.vs * encd(o_, c, t) for t in mem]))
                     tol = 1e-6 if np.asarray(slot.parent_dtype if hasattr(slot, 'parent_dtype') else m).dtype == np.float32 else 1e-9
                     if abs(m[i, j, k] - exp) > tol * (1 + abs(exp)):
